@@ -137,8 +137,121 @@ std::string action_name(int a)
 }
 
 
+// A clock that moves while the library computes (every reading costs 1-5 ms of virtual time) and a destroy
+// entered within a few readings of the deadline. Exact durations cannot be predicted then; what the property
+// still promises can: with a deadline set, a policy whose every bound is finite or "the deadline" keeps destroy
+// bounded - it may not turn into a wait without end - and a final kill step leaves the child dead and collected.
+CaseResult run_ticking(Tape &t)
+{
+  CaseResult res;
+  vs_init();
+  vs_reset();
+  vt::World w;
+  static const int64_t epochs[] = { 1000000, 1, 1700000000000LL, 2147483000LL };
+  w.now = epochs[t.pick(4)];
+  w.install();
+  int tick = (int) t.range(1, 5);
+  int deadline = (int) t.range(20, 3000);
+  int term_mode = (int) t.pick(2);  // 0 dies on TERM, 1 ignores it
+  int offset = (int) t.range(0, 12 * (uint64_t) tick) - 4 * tick;  // destroy is entered this long before (negative: after) the deadline, give or take the readings start made
+  struct Step { int action, timeout; } st[3];
+  for (int i = 0; i < 3; i++) {
+    st[i].action = (int) t.range(1, 3);  // wait, terminate, kill
+    switch (t.weighted({ 5, 2, 2 })) {
+      case 0: st[i].timeout = REPROC_DEADLINE; break;
+      case 1: st[i].timeout = (int) t.range(0, 40); break;
+      default: st[i].timeout = (int) t.range(41, 5000); break;
+    }
+  }
+  bool ends_with_kill = t.chance(2, 3);
+  if (ends_with_kill) {
+    st[2].action = REPROC_STOP_KILL;
+    if (st[2].timeout >= 0 && st[2].timeout < 50) st[2].timeout = 50 + st[2].timeout;
+  }
+  std::vector<std::string> steps;
+  for (int i = 0; i < 3; i++) steps.push_back(jstr(action_name(st[i].action) + "/" + to_name(st[i].timeout)));
+  res.describe = J().kv("scenario", "a clock that moves between two readings; destroy entered close to the deadline")
+                     .raw("stop_policy", jarr(steps))
+                     .kv("ms_per_clock_reading", tick)
+                     .kv("deadline", deadline)
+                     .kv("destroy_entered_before_deadline_ms", offset)
+                     .kv("child_term", term_mode ? "ignores-TERM" : "dies-on-TERM")
+                     .str();
+  res.hash = mix(mix(0x71c4, (uint64_t) tick * 8000 + (uint64_t) deadline), (uint64_t) (offset + 100) * 2 + (uint64_t) term_mode);
+  for (int i = 0; i < 3; i++) res.hash = mix(res.hash, (uint64_t) st[i].action * 10000 + (uint64_t) (st[i].timeout + 2));
+  res.cls("ticking-clock");
+
+  reproc_options opt;
+  memset(&opt, 0, sizeof(opt));
+  opt.redirect.discard = true;
+  opt.deadline = deadline;
+  opt.stop = { { (REPROC_STOP) st[0].action, st[0].timeout }, { (REPROC_STOP) st[1].action, st[1].timeout }, { (REPROC_STOP) st[2].action, st[2].timeout } };
+  vt::VChild ch;
+  int64_t before_start = w.now;
+  w.tick = tick;
+  std::string err = vt::start_puppet(w, fw::case_dir() + "/ctl", opt, ch, nullptr);
+  w.tick = 0;
+  if (!err.empty() || ch.start_result <= 0) {
+    w.uninstall();
+    res.inconclusive("start: " + err);
+    if (ch.p) reproc_destroy(ch.p);
+    return res;
+  }
+  int64_t after_start = w.now;  // the deadline was fixed at some reading in [before_start, after_start]
+  w.set_term_mode(ch.kid, term_mode, 0);
+  int64_t enter = after_start + deadline - offset;
+  if (enter > w.now) w.advance_to(enter);
+  int64_t t0 = w.now;
+  size_t sig0 = w.signals.size();
+  int64_t bound = 10000 + deadline;
+  for (int i = 0; i < 3; i++)
+    if (st[i].timeout > 0) bound += st[i].timeout;
+  w.call_begins(bound);
+  uint64_t reads0 = w.clock_reads;
+  w.tick = tick;
+  reproc_t *ret = reproc_destroy(ch.p);
+  w.tick = 0;
+  int64_t t1 = w.now;
+  uint64_t reads = w.clock_reads - reads0;
+  if (ret != nullptr) res.fail("destroy-returned-non-null", "reproc_destroy did not return NULL");
+  // every step lasts at most its own bound, or what was left until the deadline when it began
+  int64_t left = after_start + deadline - t0;
+  if (left < 0) left = 0;
+  int64_t most = (int64_t) reads * tick;
+  for (int i = 0; i < 3; i++) most += st[i].timeout == REPROC_DEADLINE ? left : st[i].timeout;
+  if (w.hang) res.fail("blocked-forever", "destroy blocked without bound (" + w.hang_what + " at +" + std::to_string(w.hang_at - t0) + " ms) although a deadline is set and every step of the stored policy is bounded; the clock moved " + std::to_string(tick) + " ms per reading and destroy was entered " + std::to_string(left) + " ms before the deadline");
+  else if (t1 - t0 > most) res.fail("wrong-duration", "destroy took " + std::to_string(t1 - t0) + " ms; the stored policy allows at most " + std::to_string(most) + " (" + std::to_string(reads) + " clock readings of " + std::to_string(tick) + " ms included)");
+  bool killed = false;
+  for (size_t i = sig0; i < w.signals.size(); i++) {
+    int expect_action = w.signals[i].sig == SIGKILL ? REPROC_STOP_KILL : REPROC_STOP_TERMINATE;
+    bool allowed = false;
+    for (int k = 0; k < 3; k++) allowed = allowed || st[k].action == expect_action;
+    if (!allowed) res.fail("wrong-signals", "destroy sent signal " + std::to_string(w.signals[i].sig) + ", which no step of the stored policy asks for");
+    killed = killed || w.signals[i].sig == SIGKILL;
+  }
+  if (!w.hang && ends_with_kill && vs_is_live(ch.pid)) res.fail("child-not-reaped", "the stored policy ends with kill and a wait of " + to_name(st[2].timeout) + ", yet the child was not collected" + (killed ? "" : " (no SIGKILL was sent)"));
+  res.nontrivial = true;
+  if (left > 0 && left <= 4 * tick) res.cls("ticking-clock:entered-within-four-readings-of-deadline");
+  (void) before_start;
+  if (!w.trouble.empty()) {
+    res.kind = CaseResult::INCONCLUSIVE;
+    res.msg = "harness: " + w.trouble + (res.msg.empty() ? "" : " / " + res.msg);
+  }
+  w.uninstall();
+  for (auto &kk : w.kids)
+    if (kk.alive) {
+      kill(kk.pid, SIGKILL);
+      hz::wait_dead(kk.pid, 5000);
+    }
+  if (vs_is_live(ch.pid)) hz::reap_quietly(ch.pid);
+  std::string lsig, lp = hz::ledger_problems(ch.fds_before, lsig);
+  if (!lp.empty() && res.kind == CaseResult::PASS) res.fail(lsig, "after destroy: " + lp);
+  return res;
+}
+
 CaseResult run_case(Tape &t, long sweep)
 {
+  if (sweep < 0 && t.chance(1, 10)) return run_ticking(t);
   CaseResult res;
   Case c = decode(t, sweep);
   vs_init();
